@@ -1,5 +1,6 @@
 (* Proofs about the model of fclient/request.go (Fed/Request.v). *)
 From Verif Require Import Lib.Bytes Json.Ast Json.Parse Json.Print.
+From Verif Require Import Json.Render Json.CanonFacts Json.ParseSound.
 From Verif Require Import Fed.Utf8C13 Fed.XMatrix Fed.XMatrixProofs Fed.ServerNameC13 Fed.MediaTypeC13
      Fed.Base64C13 Fed.Request.
 Open Scope N_scope.
@@ -144,13 +145,40 @@ Proof.
 Qed.
 
 (* C01 (canon_print_injective, specialised to the signing object): equal canonical forms of two
-   signing objects mean equal members and the same JSON body *)
+   signing objects mean equal members and the same JSON body.  The bodies are well-formed values
+   (every number literal grammatical), as everything the parser returns is (ParseSound.parse_wf). *)
+Definition opt_wf (c : option json) : Prop := match c with Some j => json_wf j | None => True end.
+
 Definition canon_inj_premise : Prop :=
   forall c d m o u c' d' m' o' u',
+    opt_wf c -> opt_wf c' ->
     canon_print (fields_obj c d m o u) = canon_print (fields_obj c' d' m' o' u') ->
     to_valid_utf8 d = to_valid_utf8 d' /\ to_valid_utf8 m = to_valid_utf8 m' /\
     to_valid_utf8 o = to_valid_utf8 o' /\ to_valid_utf8 u = to_valid_utf8 u' /\
     option_map canon_print c = option_map canon_print c'.
+
+Lemma fields_obj_wf c d m o u : opt_wf c -> json_wf (fields_obj c d m o u).
+Proof. destruct c; simpl; tauto. Qed.
+
+Lemma fields_obj_normalise c d m o u :
+  normalise (fields_obj c d m o u) = fields_obj (option_map normalise c) d m o u.
+Proof.
+  unfold fields_obj. cbn [normalise]. f_equal. rewrite sort_members_of_sorted.
+  - destruct c; reflexivity.
+  - destruct c; cbn; repeat split; vm_compute; reflexivity.
+Qed.
+
+(* ... which is C01's theorem *)
+Lemma canon_inj_holds : canon_inj_premise.
+Proof.
+  intros c d m o u c' d' m' o' u' W W' E.
+  apply canon_print_injective in E; [|apply fields_obj_wf; assumption|apply fields_obj_wf; assumption].
+  unfold jequiv in E. rewrite !fields_obj_normalise in E. unfold fields_obj in E.
+  destruct c as [j|], c' as [j'|]; cbn [option_map app] in E; inversion E.
+  - repeat split; try assumption. cbn [option_map]. f_equal.
+    apply canon_print_respects. assumption.
+  - repeat split; assumption.
+Qed.
 
 Lemma some_inj {A} (a b : A) : Some a = Some b -> a = b.
 Proof. intro H. injection H. auto. Qed.
@@ -397,7 +425,6 @@ Section RequestProofs.
   Qed.
 
   Lemma binding_lemma rc now rn q code r k c0 d0 m0 o0 u0 msg0 :
-    canon_inj_premise ->
     signing_bytes c0 d0 m0 o0 u0 = Some msg0 ->
     verify_http_request rc now rn q = (code, Some r) ->
     (forall text raw sg, In text (map snd (f_sigs r)) -> b64_decode text = Some raw ->
@@ -406,23 +433,26 @@ Section RequestProofs.
     to_valid_utf8 (f_origin r) = to_valid_utf8 o0 /\ to_valid_utf8 (f_dest r) = to_valid_utf8 d0 /\
     option_map canonical (f_content r) = option_map canonical c0.
   Proof.
-    intros CI Hs Hv Hsig.
+    intros Hs Hv Hsig. pose proof canon_inj_holds as CI.
     assert (Hm : signing_bytes (f_content r) (f_dest r) (f_method r) (f_origin r) (f_uri r) = Some msg0)
       by (eapply accepted_message; eauto).
     unfold signing_bytes in Hm, Hs.
     destruct (f_content r) as [raw|]; destruct c0 as [raw0|]; unfold canonical; cbn [option_map].
-    - destruct (parse_json raw) as [j|]; [|discriminate]. destruct (parse_json raw0) as [j0|]; [|discriminate].
+    - destruct (parse_json raw) as [j|] eqn:Ej; [|discriminate].
+      destruct (parse_json raw0) as [j0|] eqn:Ej0; [|discriminate].
       apply some_inj in Hm. apply some_inj in Hs. rewrite <- Hs in Hm.
-      apply CI in Hm as (Hd & Hmm & Ho & Hu & Hc). cbn [option_map] in Hc. apply some_inj in Hc.
+      apply CI in Hm as (Hd & Hmm & Ho & Hu & Hc);
+        [|exact (parse_wf _ _ Ej)|exact (parse_wf _ _ Ej0)].
+      cbn [option_map] in Hc. apply some_inj in Hc.
       cbn [option_map]. rewrite Hc. repeat split; assumption.
-    - destruct (parse_json raw) as [j|]; [|discriminate].
+    - destruct (parse_json raw) as [j|] eqn:Ej; [|discriminate].
       apply some_inj in Hm. apply some_inj in Hs. rewrite <- Hs in Hm.
-      apply CI in Hm as (_ & _ & _ & _ & Hc). discriminate.
-    - destruct (parse_json raw0) as [j0|]; [|discriminate].
+      apply CI in Hm as (_ & _ & _ & _ & Hc); [discriminate|exact (parse_wf _ _ Ej)|exact I].
+    - destruct (parse_json raw0) as [j0|] eqn:Ej0; [|discriminate].
       apply some_inj in Hm. apply some_inj in Hs. rewrite <- Hs in Hm.
-      apply CI in Hm as (_ & _ & _ & _ & Hc). discriminate.
+      apply CI in Hm as (_ & _ & _ & _ & Hc); [discriminate|exact I|exact (parse_wf _ _ Ej0)].
     - apply some_inj in Hm. apply some_inj in Hs. rewrite <- Hs in Hm.
-      apply CI in Hm as (Hd & Hmm & Ho & Hu & _). repeat split; assumption.
+      apply CI in Hm as (Hd & Hmm & Ho & Hu & _); [|exact I|exact I]. repeat split; assumption.
   Qed.
 
   Lemma reports_lemma rc now rn q code r :
@@ -485,6 +515,21 @@ Section RequestProofs.
   Proof.
     destruct m as [|c m]; [contradiction|]. intros _. unfold http_method.
     destruct (forallb is_tchar (c :: m)); intro H; inversion H. reflexivity.
+  Qed.
+
+  (* what Sign leaves as the body is a canonical text: non-empty and its own canonical form
+     (C01: ParseSound.canonical_idempotent_all) *)
+  Lemma fr_sign_content r0 origin keyid sk r1 b :
+    fr_sign r0 origin keyid sk = Some r1 -> f_content r1 = Some b -> b <> [] /\ canonical b = Some b.
+  Proof.
+    unfold Request.fr_sign. intros Hsign Hb.
+    destruct (negb (is_nil (f_origin r0)) && negb (bytes_eqb (f_origin r0) origin)); [discriminate|].
+    destruct (negb _); [discriminate|].
+    destruct (signing_bytes _ _ _ _ _); [|discriminate].
+    inversion Hsign; subst r1; clear Hsign. cbn [f_content] in Hb.
+    destruct (f_content r0) as [raw|]; [|discriminate].
+    assert (C : canonical b = Some b) by (eapply canonical_idempotent_all; exact Hb).
+    split; [|exact C]. intro E. subst b. vm_compute in C. discriminate.
   Qed.
 
   Lemma sign_send_verify_lemma r0 origin keyid sk r1 h (rc : receiver) now rn e :
